@@ -9,7 +9,8 @@ RULE = ("every grammar (a set of productions, start symbol S) in three families:
         "(quick: <= 3), B used; kept if S is defined and productive, every used non-terminal is defined and reachable, and the set is the "
         "canonical representative under a<->b and A<->B; for each grammar LrParserBuilder either raises ParserGenerationException (nothing "
         "claimed) or the parser is run on every token string of length <= 6 (quick: 5) over the grammar's terminals; distinct non-trivial = "
-        "distinct (builder outcome, shift/reduce flag, set of accepted strings) with a non-empty accepted set, plus distinct returned trees")
+        "distinct (builder outcome, shift/reduce flag, set of accepted strings) with a non-empty accepted set, plus distinct returned trees; (F4) 10 curated "
+        "grammars over {S,A,B,C} whose nullability / FIRST sets are only reached through chains of non-terminals, each in every order of its production list")
 ASSUMPTIONS = [
     "oracle: number of derivation trees (0, 1, many) of every string from every non-terminal, least fixpoint of the saturating counting "
     "equations computed by increasing string length (written in /verif from the definition of derivation; independent of ppci)",
@@ -22,7 +23,7 @@ ASSUMPTIONS = [
     "tree of such a string in these grammars has < 100 nodes); a CPU-time watchdog is only the backstop",
     "the Earley parser is run on the same (grammar, string) pairs up to length 4 as a supplementary accept/reject comparison; the property "
     "statement is about LR parsers, so Earley disagreements are counted and listed in the evidence, not reported as violations",
-    "productions are added in sorted order (VERIF_SEED odd: reversed order); other orders are not explored",
+    "F1-F3: productions are added in sorted order (VERIF_SEED odd: reversed order); every order is explored only for the F4 grammars",
 ]
 CLAIM = {
     "text": "for every grammar in the three bounded families that the LR(1) builder accepts without a shift/reduce resolution, the generated "
@@ -530,6 +531,30 @@ def worker(p, shard, L, Le, reverse):
             check_grammar(p, prods, L, Le, order=(k * 10 ** 6 + ci) * 10 ** 5 + rank)
 
 
+# (F4) curated grammars with a fourth non-terminal C, each in EVERY order of its production list: nullability and FIRST sets that are only
+# reached through other non-terminals (chains), so that any dependence of the table construction on the order of the rules shows
+ORDER_GRAMMARS = [
+    (("S", "CA"), ("C", "a"), ("A", "B"), ("B", ""), ("B", "b")),
+    (("S", "CAb"), ("C", "a"), ("A", "B"), ("B", "")),
+    (("S", "CA"), ("C", "a"), ("A", "B"), ("B", "C"), ("B", "")),
+    (("S", "CAB"), ("C", "a"), ("A", "B"), ("B", ""), ("B", "b")),
+    (("S", "CA"), ("C", "a"), ("A", "Bb"), ("A", ""), ("B", "")),
+    (("S", "AC"), ("A", "B"), ("B", ""), ("B", "b"), ("C", "a")),
+    (("S", "aA"), ("A", "B"), ("B", "C"), ("C", ""), ("C", "bS")),
+    (("S", "CAa"), ("C", "b"), ("C", ""), ("A", "B"), ("B", "")),
+    (("S", "A"), ("A", "B"), ("B", "C"), ("C", "a"), ("C", "")),
+    (("S", "CA"), ("S", "b"), ("C", "aS"), ("A", "B"), ("B", "")),
+]
+
+
+def order_worker(p, shard, L, Le):
+    for gi, perm in shard:
+        base = ORDER_GRAMMARS[gi]
+        prods = tuple(base[i] for i in perm)
+        p.count("kept_F4")
+        check_grammar(p, prods, L, Le, order=9 * 10 ** 12 + gi * 1000)
+
+
 def oracle_selftest():
     """The oracle on grammars whose languages are known in closed form."""
     balanced = (("S", ""), ("S", "aSb"))
@@ -575,6 +600,9 @@ def run(ctx):
     ex = (("S", "SS"), ("S", "a"), ("S", ""))
     ctx.sample({"grammar": show_grammar(ex), "derivation_counts_of_S(2=many)": {w or "<empty>": c for w, c in derivation_counts(ex, "a", 2)["S"].items()}})
     ctx.pmap(worker, list(enumerate(work)), extra=(L, Le, reverse), nshards=256)
+    order_items = [(gi, perm) for gi, g in enumerate(ORDER_GRAMMARS) for perm in itertools.permutations(range(len(g)))]
+    ctx.note("F4_order_family", {"base_grammars": [show_grammar(g) for g in ORDER_GRAMMARS], "production_orders": len(order_items)})
+    ctx.pmap(order_worker, order_items, extra=(L, Le), nshards=32)
     import math
     for name, k in spec:
         n = len(pool_of(name))
